@@ -193,8 +193,10 @@ def check(an, rep, tier):
         # found-but-wrong: v stored into several cores / into another slot /
         # a literal other than 1 in the other cores; no recognisable store at
         # all is decided by the degree facet below
-        bad = (len(vstores) > 1) or (len(vstores) == 1 and others and
-                                     not ok)
+        bad = (len(vstores) > 1) or any(
+            isinstance(o.value.value, (int, float)) and
+            not isinstance(o.value.value, bool) and
+            o.value.value not in (0, 1) for o in others)
         rep.add('U-deg', q, 'v stored into exactly one (the last) core, 1 '
                 'elsewhere', 'ok' if ok else ('violation' if bad else
                                               'unknown'),
